@@ -1,6 +1,6 @@
 // CAST5 / CAST-128: conformance to RFC 2144 (C09), round trip (C01), dev-profile obligations (C20).
-//   D  cast5_conf_enc/dec     real round code (f1/f2/f3 macros) on an ARBITRARY state vs RFC 2144 2.2 rounds (12 / 16)
-//   D  cast5_roundtrip_*      on an arbitrary state
+//   D  cast5_conf_{enc,dec}{12,16}   real round code (f1/f2/f3 macros) on an ARBITRARY state vs RFC 2144 2.2 rounds
+//   D  cast5_roundtrip_{ed,de}{12,16} on an arbitrary state
 //   L  cast5_half_schedule    schedule::key_schedule (one half: 16 of the 32 K_i, macro-expanded) vs the RFC's formulas
 //                             interpreted from index tables, all 2^128 running values x0..xF.  THOROUGH tier only (mem=30): the
 //                             function is 24,741 straight-line GOTO instructions and goto-instrument's
@@ -14,7 +14,13 @@ use crate::Cast5;
 use cipher::{BlockCipherDecrypt, BlockCipherEncrypt, KeyInit};
 use refmodels::cast5 as r;
 
-fn arb_state(inp: &[u8; 89]) -> (Cast5, [u8; 8]) {
+// The round count is a field of the state; the two values are decided by separate harnesses with `small_key` concrete:
+// with a symbolic flag the 4 conditional rounds of decryption work on if-then-else merged halves and the solvers no longer
+// recognise the Feistel cancellation (direct round trip: no answer in 30 min with CaDiCaL or Kissat), with a concrete
+// flag the query is an ordinary 12- or 16-round Feistel miter.  MEASUREMENT STATUS: cast5_roundtrip_ed16 still had no answer
+// after 1800 s (CaDiCaL); none of these eight harnesses has been run to completion -- they are thorough-tier candidates with
+// the full 7200 s cap and have to be confirmed or dropped by a run on an idle machine.
+fn arb_state(inp: &[u8; 88], small_key: bool) -> (Cast5, [u8; 8]) {
     let mut masking = [0u32; 16];
     let mut rotate = [0u8; 16];
     let mut i = 0;
@@ -23,7 +29,7 @@ fn arb_state(inp: &[u8; 89]) -> (Cast5, [u8; 8]) {
         rotate[i] = inp[64 + i];
         i += 1;
     }
-    (Cast5 { masking, rotate, small_key: inp[80] & 1 == 1 }, take(inp, 81))
+    (Cast5 { masking, rotate, small_key }, take(inp, 80))
 }
 fn n_rounds(c: &Cast5) -> usize {
     if c.small_key {
@@ -33,59 +39,55 @@ fn n_rounds(c: &Cast5) -> usize {
     }
 }
 
-//@ harness name=cast5_conf_enc prop=C09,C20 tier=thorough bits=705 est=2500 solver=kissat desc="D: encrypt_block on an arbitrary state (masking, rotate: any bytes, small_key) == RFC 2144 encryption with 12 (small_key) or 16 rounds, f1/f2/f3 types per round, all blocks; S-box indices in range, no overflow"
-verif_harness! {
-    name: cast5_conf_enc,
-    bytes: 89,
-    unwind: 20,
-    prop: |inp| {
-        let (c, blk) = arb_state(inp);
-        let mut b = blk.into();
-        c.encrypt_block(&mut b);
-        Some(b.0 == r::crypt(&c.masking, &c.rotate, n_rounds(&c), &blk, false))
-    }
+macro_rules! conf_harness {
+    ($name:ident, $small:expr, $method:ident, $dec:expr) => {
+        verif_harness! {
+            name: $name,
+            bytes: 88,
+            unwind: 20,
+            prop: |inp| {
+                let (c, blk) = arb_state(inp, $small);
+                let mut b = blk.into();
+                c.$method(&mut b);
+                Some(b.0 == r::crypt(&c.masking, &c.rotate, n_rounds(&c), &blk, $dec))
+            }
+        }
+    };
+}
+macro_rules! rt_harness {
+    ($name:ident, $small:expr, $first:ident, $second:ident) => {
+        verif_harness! {
+            name: $name,
+            bytes: 88,
+            unwind: 20,
+            prop: |inp| {
+                let (c, blk) = arb_state(inp, $small);
+                let mut b = blk.into();
+                c.$first(&mut b);
+                c.$second(&mut b);
+                Some(b.0 == blk)
+            }
+        }
+    };
 }
 
-//@ harness name=cast5_conf_dec prop=C09,C20 tier=thorough bits=705 est=2500 desc="D: decrypt_block on an arbitrary state == RFC 2144 decryption (round keys in reverse order, 12 or 16 rounds), all blocks"
-verif_harness! {
-    name: cast5_conf_dec,
-    bytes: 89,
-    unwind: 20,
-    prop: |inp| {
-        let (c, blk) = arb_state(inp);
-        let mut b = blk.into();
-        c.decrypt_block(&mut b);
-        Some(b.0 == r::crypt(&c.masking, &c.rotate, n_rounds(&c), &blk, true))
-    }
-}
+//@ harness name=cast5_conf_enc16 prop=C09,C20 tier=thorough bits=704 est=3600 cap=7200 desc="D: encrypt_block on an arbitrary 16-round state (masking, rotate: any bytes; small_key = false) == RFC 2144 encryption with 16 rounds, f1/f2/f3 types per round, all blocks; S-box indices in range, no overflow"
+conf_harness!(cast5_conf_enc16, false, encrypt_block, false);
+//@ harness name=cast5_conf_enc12 prop=C09,C20 tier=thorough bits=704 est=3600 cap=7200 desc="D: encrypt_block on an arbitrary 12-round state (small_key = true: keys of up to 80 bits) == RFC 2144 encryption with 12 rounds, all blocks"
+conf_harness!(cast5_conf_enc12, true, encrypt_block, false);
+//@ harness name=cast5_conf_dec16 prop=C09,C20 tier=thorough bits=704 est=3600 cap=7200 desc="D: decrypt_block on an arbitrary 16-round state == RFC 2144 decryption (round keys in reverse order), all blocks"
+conf_harness!(cast5_conf_dec16, false, decrypt_block, true);
+//@ harness name=cast5_conf_dec12 prop=C09,C20 tier=thorough bits=704 est=3600 cap=7200 desc="D: decrypt_block on an arbitrary 12-round state == RFC 2144 decryption with 12 rounds, all blocks"
+conf_harness!(cast5_conf_dec12, true, decrypt_block, true);
 
-//@ harness name=cast5_roundtrip_ed prop=C01,C20 tier=quick bits=705 est=200 solver=kissat cap=1800 desc="D: decrypt_block(encrypt_block(b)) == b on an arbitrary state (superset of all accepted keys, both round counts), all blocks"
-verif_harness! {
-    name: cast5_roundtrip_ed,
-    bytes: 89,
-    unwind: 20,
-    prop: |inp| {
-        let (c, blk) = arb_state(inp);
-        let mut b = blk.into();
-        c.encrypt_block(&mut b);
-        c.decrypt_block(&mut b);
-        Some(b.0 == blk)
-    }
-}
-
-//@ harness name=cast5_roundtrip_de prop=C01,C20 tier=quick bits=705 est=200 cap=1800 desc="D: encrypt_block(decrypt_block(b)) == b on an arbitrary state, all blocks"
-verif_harness! {
-    name: cast5_roundtrip_de,
-    bytes: 89,
-    unwind: 20,
-    prop: |inp| {
-        let (c, blk) = arb_state(inp);
-        let mut b = blk.into();
-        c.decrypt_block(&mut b);
-        c.encrypt_block(&mut b);
-        Some(b.0 == blk)
-    }
-}
+//@ harness name=cast5_roundtrip_ed16 prop=C01,C20 tier=thorough bits=704 est=3600 cap=7200 desc="D: decrypt_block(encrypt_block(b)) == b on an arbitrary 16-round state (superset of all keys of more than 80 bits), all blocks"
+rt_harness!(cast5_roundtrip_ed16, false, encrypt_block, decrypt_block);
+//@ harness name=cast5_roundtrip_ed12 prop=C01,C20 tier=thorough bits=704 est=3600 cap=7200 desc="D: decrypt_block(encrypt_block(b)) == b on an arbitrary 12-round state (superset of all keys of 40..=80 bits), all blocks"
+rt_harness!(cast5_roundtrip_ed12, true, encrypt_block, decrypt_block);
+//@ harness name=cast5_roundtrip_de16 prop=C01,C20 tier=thorough bits=704 est=3600 cap=7200 desc="D: encrypt_block(decrypt_block(b)) == b on an arbitrary 16-round state, all blocks"
+rt_harness!(cast5_roundtrip_de16, false, decrypt_block, encrypt_block);
+//@ harness name=cast5_roundtrip_de12 prop=C01,C20 tier=thorough bits=704 est=3600 cap=7200 desc="D: encrypt_block(decrypt_block(b)) == b on an arbitrary 12-round state, all blocks"
+rt_harness!(cast5_roundtrip_de12, true, decrypt_block, encrypt_block);
 
 //@ harness name=cast5_half_schedule prop=C09,C20 tier=thorough bits=256 est=900 mem=30 desc="L: schedule::key_schedule(x, z, k) == the sixteen K_i and the updated x0..xF of RFC 2144 2.4 (formulas interpreted from index tables), for all 2^128 x and arbitrary incoming z (outputs do not depend on it); get_i! indices in range"
 verif_harness! {
@@ -120,30 +122,6 @@ verif_harness! {
         i = 0;
         while i < 4 {
             ok &= x[i] == u32::from_be_bytes(take(&xz, 4 * i));
-            i += 1;
-        }
-        Some(ok)
-    }
-}
-
-//@ harness name=cast5_new_direct prop=C09 tier=thorough bits=132 est=3000 cap=5400 mem=30 desc="D: Cast5::new_from_slice(key[..len]) == RFC 2144 key schedule (both halves, real S5..S8 lookups) of the zero-padded key, masking/rotate/small_key, len symbolic 5..=16, all key bytes (one query; complements the L+W pair cast5_half_schedule + cast5_new_w)"
-verif_harness! {
-    name: cast5_new_direct,
-    bytes: 17,
-    unwind: 34,
-    prop: |inp| {
-        let key: [u8; 16] = take(inp, 0);
-        let len = inp[16] as usize;
-        vassume!(5 <= len && len <= 16);
-        let c = match Cast5::new_from_slice(&key[..len]) {
-            Err(_) => return Some(false),
-            Ok(c) => c,
-        };
-        let (km, kr) = r::key_schedule(&r::pad(&key, len));
-        let mut ok = c.small_key == (r::rounds(len) == 12);
-        let mut i = 0;
-        while i < 16 {
-            ok &= c.masking[i] == km[i] && c.rotate[i] == kr[i];
             i += 1;
         }
         Some(ok)
